@@ -374,6 +374,17 @@ func (f *Frame) doCall(ci ssa.CallInstruction, st *State, reach Term) []Term {
 	return out
 }
 
+// recordReached makes called("<selector>#k") available for non-call sites
+// (sends and selects).
+func (f *Frame) recordReached(in ssa.Instruction, reach Term) {
+	if f.callRes == nil {
+		f.callRes = map[string][]Val{}
+	}
+	for sel, k := range f.siteOrd[in] {
+		f.callRes[fmt.Sprintf("reach:%s#%d", sel, k)] = []Val{{T: reach, GT: types.Typ[types.Bool]}}
+	}
+}
+
 func (f *Frame) doCallInner(ci ssa.CallInstruction, st *State, reach Term) []Term {
 	c := f.c
 	cm := ci.Common()
